@@ -54,7 +54,7 @@ class SequencerMixin:
 
     .. automethod:: seq_is_alive
 
-    .. method:: _ext_state()
+    .. method:: readHwStatus()
 
        Implement this to return a custom state tuple when the sequence is
        not active.
